@@ -19,13 +19,9 @@ set_option linter.unusedVariables false
 namespace Pdt.C04
 open Pdt Pdt.Meta
 
-/-! ## tie to the source: translated constants the model is defined over -/
-
-theorem unit_from_dtype_kind_pinned :
-    Gen.unitFromDtypeKind = [('b', "onoff".toList), ('i', "-".toList), ('u', "-".toList), ('f', "-".toList),
-      ('M', "-".toList), ('O', "text".toList), ('S', "text".toList), ('U', "text".toList)] := by decide
-
-theorem units_special_pinned : Gen.unitsSpecial = ["onoff".toList, "text".toList] := by decide
+/-! No theorem of this file depends on the values of `_unit_from_dtype_kind` / `_units_special`: which
+    unit a dtype gets and which labels are refused is C15's subject (pinned in Props/C15.lean); the order and
+    completeness of the register proved here hold whatever those tables contain. -/
 
 /-! ## declarative side -/
 
